@@ -117,6 +117,9 @@ def run(d: Path, props: list[str] | None, tier: str, worktree: bool = False) -> 
             print("refusing: /repo has uncommitted changes\n", out)
             return 2
     rc, out = sh(["git", "-C", str(target), "apply", str(d / "patch.diff")])
+    if rc:  # the tree has moved on since the change was made (fix: commits): fall back to a three-way merge
+        rc, out = sh(["git", "-C", str(target), "apply", "--3way", str(d / "patch.diff")])
+        sh(["git", "-C", str(target), "reset", "-q"])
     if rc:
         print("patch does not apply:", out)
         if worktree:
